@@ -146,6 +146,8 @@ type TracePager struct {
 	mu    sync.Mutex
 	Ev    []TraceEvent
 	Hook  func(idx int, ev TraceEvent)
+	// PreLock runs right before the lock request is passed on (the moment before a read transaction begins)
+	PreLock func()
 }
 
 func (t *TracePager) add(ev TraceEvent) {
@@ -170,6 +172,9 @@ func (t *TracePager) Close() error {
 	return err
 }
 func (t *TracePager) RLock() error {
+	if f := t.PreLock; f != nil {
+		f()
+	}
 	err := t.Inner.RLock()
 	if err != nil {
 		t.add(TraceEvent{Kind: "lockfail"})
